@@ -95,6 +95,31 @@ def compute_hash(content: str) -> str:
     return hashlib.sha256(content.encode("utf-8")).hexdigest()
 
 
+def lock_directory_for_cas(directory: Path) -> int | None:
+    """Take an exclusive advisory lock that serialises the CAS re-check + replace of writers.
+
+    The base_hash re-check and os.replace() are two system calls; two cooperating writers that
+    hold the same base_hash could both pass the re-check before either replaced the file, and
+    both reported success (lost update). Holding an exclusive flock() on the parent directory
+    around "re-read, compare, replace" makes that step atomic among writers using these tools.
+
+    Returns the lock's file descriptor (close it to release), or None where advisory locks are
+    unavailable (non-POSIX platforms, file systems without flock) - the caller then falls back
+    to the unlocked re-check, which still narrows the window.
+    """
+    try:
+        import fcntl
+    except ImportError:  # pragma: no cover - non-POSIX
+        return None
+    fd = os.open(directory, os.O_RDONLY)
+    try:
+        fcntl.flock(fd, fcntl.LOCK_EX)
+    except OSError:
+        os.close(fd)
+        return None
+    return fd
+
+
 def atomic_write_octave(
     target_path: str,
     content: str,
@@ -189,21 +214,32 @@ def atomic_write_octave(
                 f.flush()
                 os.fsync(f.fileno())
 
-            # TOCTOU protection: recheck base_hash before replace
-            if base_hash and path_obj.exists():
-                with open(target_path, encoding="utf-8") as verify_f:
-                    verify_content = verify_f.read()
-                verify_hash = compute_hash(verify_content)
-                if verify_hash != base_hash:
-                    os.unlink(temp_path)
-                    return {
-                        "status": "error",
-                        "error": f"Hash mismatch before write (expected {base_hash[:8]}..., got {verify_hash[:8]}...)",
-                        "path": target_path,
-                    }
+            # TOCTOU protection: recheck base_hash before replace, under an exclusive
+            # advisory lock so that re-check + replace is atomic among cooperating writers
+            lock_fd: int | None = None
+            try:
+                if base_hash and path_obj.exists():
+                    lock_fd = lock_directory_for_cas(path_obj.parent)
+                    with open(target_path, encoding="utf-8") as verify_f:
+                        verify_content = verify_f.read()
+                    verify_hash = compute_hash(verify_content)
+                    if verify_hash != base_hash:
+                        os.unlink(temp_path)
+                        return {
+                            "status": "error",
+                            "error": f"Hash mismatch before write (expected {base_hash[:8]}..., got {verify_hash[:8]}...)",
+                            "path": target_path,
+                        }
 
-            # Atomic replace
-            os.replace(temp_path, target_path)
+                # Atomic replace
+                os.replace(temp_path, target_path)
+            finally:
+                # releasing the lock must never turn a completed replace into an error
+                if lock_fd is not None:
+                    try:
+                        os.close(lock_fd)
+                    except OSError:
+                        pass
 
         except Exception:
             # Unconditional: an os.path.exists() guard leaves the temp file behind when that stat fails
